@@ -225,7 +225,7 @@ def used_qualifiers(sql):
 
 def text_item_has_subq(sql):
     """a `( select` opened inside a select list (between a SELECT and the FROM of the same nesting level): the shape whose source
-    columns travel through `_get_column_from_subquery` (finding D41-subquery-schema-lost)"""
+    columns travel through `_get_column_from_subquery` (finding D45-subquery-schema-lost)"""
     toks = lex(sql)
     if toks is None:
         return True      # cannot tell: treat as possibly of that shape
